@@ -289,6 +289,13 @@ def show(t: Any, depth: int = 0) -> str:
     if depth > 12:
         return "..."
     s = lambda x: show(x, depth + 1)  # noqa: E731
+    if not isinstance(tag, str):
+        return "(" + ", ".join(s(x) for x in t) + ")"
+    if tag == "comp":
+        gens = " ".join(f"for _ in {s(g[0])}" + ("" if g[1] == TRUE else f" if {s(g[1])}") for g in t[3])
+        return f"[{s(t[2])} {gens}]"
+    if tag == "dict":
+        return "{" + ", ".join(f"{s(k)}: {s(v)}" for k, v in t[1:]) + "}"
     if tag == "const":
         return repr(t[1])
     if tag == "name":
@@ -369,6 +376,7 @@ class Sym:
         self.path0 = _path
         self.loops0 = _loops
         self.local_fns: dict[str, ast.FunctionDef] = {}
+        self._pending: list[Term] = []
         env: dict[str, Term] = {}
         a = f.node.args
         for p in a.posonlyargs + a.args + a.kwonlyargs + ([a.vararg] if a.vararg else []) + ([a.kwarg] if a.kwarg else []):
@@ -431,7 +439,11 @@ class Sym:
         if isinstance(e, ast.Attribute):
             return ("attr", E(e.value), e.attr)
         if isinstance(e, ast.Subscript):
-            return ("idx", E(e.value), E(e.slice))
+            base, ix = E(e.value), E(e.slice)
+            # for k, v in d.items(): d[k] is v
+            if ix[0] == "item" and ix[2] == 0 and ix[1][0] == "elem" and ix[1][1] == ("call", ("attr", base, "items"), (), ()):
+                return ("item", ix[1], 1)
+            return ("idx", base, ix)
         if isinstance(e, ast.Slice):
             return ("slice", E(e.lower), E(e.upper), E(e.step))
         if isinstance(e, ast.Tuple):
@@ -467,7 +479,10 @@ class Sym:
                 return mk_mul([a, b])
             if isinstance(e.op, ast.Div):
                 return mk_mul([a, mk_inv(b)])
-            return ("bin", type(e.op).__name__, a, b)
+            opn = type(e.op).__name__
+            if opn in ("BitAnd", "BitOr", "BitXor") and tkey(b) < tkey(a):
+                a, b = b, a  # commutative on sets, ints and boolean arrays
+            return ("bin", opn, a, b)
         if isinstance(e, ast.BoolOp):
             # short-circuit: later operands are evaluated under the earlier ones
             vals = []
@@ -649,6 +664,9 @@ class Sym:
         t = sub.ret
         if size(t) > MAX_TERM_NODES:
             return None
+        # a helper that returned did not raise: its raising branches become facts of the caller's path
+        t, facts = _strip_raises(t)
+        self._pending.extend(facts)
         return t
 
     # ----------------------------------------------------------------- statements
@@ -667,6 +685,15 @@ class Sym:
 
     def stmt(self, st: ast.stmt, env: dict, path: Term, loops: tuple) -> tuple[Outcome, Term]:
         """Returns (outcome, path condition holding *after* the statement when it falls through)."""
+        o, p = self._stmt(st, env, path, loops)
+        if self._pending:
+            p = mk_and([p] + self._pending)
+            if o.env is not None:
+                o = Outcome(o.env, o.ret, mk_and([o.path] + self._pending))
+            self._pending = []
+        return o, p
+
+    def _stmt(self, st: ast.stmt, env: dict, path: Term, loops: tuple) -> tuple[Outcome, Term]:
         ev = lambda x: self.ev(x, env, path, loops)  # noqa: E731
         if isinstance(st, ast.Expr):
             if isinstance(st.value, ast.Constant):
@@ -918,6 +945,35 @@ class Sym:
         return [l for l in self.log if l.kind in kinds]
 
 
+FALSE: Term = ("const", False)
+
+
+def _strip_raises(t: Term) -> tuple[Term, list]:
+    """Remove the raising alternatives of a helper's return term; returns (term, conditions that therefore hold)."""
+
+    def strip(x: Term) -> tuple[Term, Term]:
+        if x[0] == "raise":
+            return x, FALSE
+        if x[0] == "ifexp":
+            c = x[1]
+            a, ca = strip(x[2])
+            b, cb = strip(x[3])
+            if ca == FALSE and cb == FALSE:
+                return x, FALSE
+            if ca == FALSE:
+                return b, mk_and([mk_not(c), cb])
+            if cb == FALSE:
+                return a, mk_and([c, ca])
+            cond = TRUE if (ca == TRUE and cb == TRUE) else mk_or([mk_and([c, ca]), mk_and([mk_not(c), cb])])
+            return mk_ifexp(c, a, b), cond
+        return x, TRUE
+
+    r, cond = strip(t)
+    if cond == FALSE:
+        return t, []
+    return r, list(conj_of(cond))
+
+
 def _const_like(node: ast.AST) -> bool:
     for n in ast.walk(node):
         if isinstance(n, (ast.Call, ast.Lambda, ast.ListComp, ast.DictComp, ast.SetComp, ast.GeneratorExp, ast.Dict, ast.List, ast.Set, ast.Subscript)):
@@ -1012,7 +1068,7 @@ def _match(p: Any, t: Any, b: dict) -> Optional[dict]:
         return _match_ac(p[0], list(p[1:]), list(t[1:]), b)
     if len(p) != len(t):
         return None
-    if p[0] == "cmp" and t[0] == "cmp" and p[1] == t[1] and p[1] in SYMM:
+    if (p[0] == "cmp" and t[0] == "cmp" and p[1] == t[1] and p[1] in SYMM) or (p[0] == "bin" and t[0] == "bin" and p[1] == t[1] and p[1] in ("BitAnd", "BitOr", "BitXor")):
         for x, y in ((t[2], t[3]), (t[3], t[2])):
             r = _match(p[2], x, b)
             if r is not None:
